@@ -113,9 +113,9 @@ def pPerm : Nat → P Perm
   | fuel + 1, ws =>
     match ws with
     | "-" :: r => some (.nil, r)
-    | "p" :: atr :: sh :: r =>
-      match hexArg atr, flagArg sh, pIntC r with
-      | some atr, some sh, some (nv, va :: v :: r) =>
+    | "p" :: tm :: atr :: sh :: r =>
+      match natArg tm, hexArg atr, flagArg sh, pIntC r with
+      | some tm, some atr, some sh, some (nv, va :: v :: r) =>
         match flagArg va, hexArg v, pStrC r with
         | some va, some v, some (vm, r) =>
           match pIntC r with
@@ -145,9 +145,9 @@ def pPerm : Nat → P Perm
                 | some (mt, r) =>
                   match pTimeC r with
                   | none => none
-                  | some (tm, r) => some (.mk ⟨atr, sh, nv, va, v, vm, vi, mt, tm⟩ inSet rel any all, r)
+                  | some (tmc, r) => some (.mk ⟨tm, atr, sh, nv, va, v, vm, vi, mt, tmc⟩ inSet rel any all, r)
         | _, _, _ => none
-      | _, _, _ => none
+      | _, _, _, _ => none
     | _ => none
 def pFile : Nat → P FileC
   | 0, _ => none
@@ -211,9 +211,8 @@ structure S where
   kinds : List (Ref × String)   -- pn | claim | bytes | file | dir | ss
   pns : List Ref                -- upload order
   lastDate : Nat
-  pnLast : List (Ref × Nat)
 
-def S.init : S := ⟨⟨[], [], [], [], [], []⟩, [], [], 0, []⟩
+def S.init : S := ⟨⟨[], [], [], [], [], []⟩, [], [], 0⟩
 
 def S.kind (s : S) (r : Ref) : String :=
   match s.kinds.find? (fun p => p.1 == r) with
@@ -236,16 +235,21 @@ def S.fresh (s : S) (ref size : String) : Option (Ref × Nat) :=
 
 def dateCutoff : Nat := 1600000000
 
-def S.dateOK (s : S) (d : String) (pn : Option Ref) : Option Nat :=
+/-- a claim date: positive, before the cutoff, different from the date of every claim the permanode
+already has (so that the date order of its claims is determined); `mayBeLate = false`: not before
+the latest date used so far -/
+def S.dateOK (s : S) (d : String) (pn : Ref) (mayBeLate : Bool) : Option Nat :=
   match natArg d with
   | none => none
   | some d =>
-    let pl := match pn with
-      | none => 0
-      | some p => match s.pnLast.find? (fun x => x.1 == p) with
-        | some x => x.2
-        | none => 0
-    if d == 0 || d ≥ dateCutoff || d < s.lastDate || (pn.isSome && d ≤ pl) then none else some d
+    if d == 0 || d ≥ dateCutoff || (!mayBeLate && d < s.lastDate) ||
+       s.w.claims.any (fun c => c.pn == pn && c.date == d) then none else some d
+
+/-- PermanodeMeta.Claims is kept sorted by date (corpus.go:192): a claim that arrives with an
+older date goes to its place (after the claims of the same date, which arrived before it) -/
+def insertByDate (c : Claim) : List Claim → List Claim
+  | [] => [c]
+  | x :: l => if x.date ≤ c.date then x :: insertByDate c l else c :: x :: l
 
 def showTime (t : Nat) : String := if t == 0 then "none" else toString t
 
@@ -294,25 +298,28 @@ def step (s : S) (ws : List String) : S × String :=
     (match s.fresh ref size with
      | some (r, n) => if keyOK key then ({ s.addBlob r "permanode" n "pn" with pns := s.pns ++ [r] }, "ok") else (s, "bad-op")
      | none => (s, "bad-op"))
-  | ["cl", ref, size, pn, kind, attr, val, date] =>
+  | ["cl", ref, size, pn, kind, attr, val, date, who] =>
+    if who != "own" && who != "other" then (s, "bad-op") else
     (match s.fresh ref size, refWord pn, hexArg attr, hexArg val with
      | some (r, n), some p, some a, some v =>
        let k? : Option CKind := if kind == "set" then some .set else if kind == "add" then some .add
          else if kind == "del" then some .del else none
-       match k?, s.dateOK date (some p) with
+       -- a claim dated before the latest date so far must not name a blob (Corpus.claimBack is in
+       -- arrival order, the model's claim list in date order: they agree on the claims that name blobs)
+       match k?, s.dateOK date p (!refOK tbl v) with
        | some k, some d =>
          if s.kind p != "pn" || a.isEmpty then (s, "bad-op") else
          let s1 := s.addBlob r "claim" n "claim"
-         ({ s1 with w := { s1.w with claims := s1.w.claims ++ [⟨p, k, a, v, d⟩] }, lastDate := d,
-                    pnLast := (p, d) :: s1.pnLast }, "ok")
+         ({ s1 with w := { s1.w with claims := insertByDate ⟨p, k, a, v, d, who == "other"⟩ s1.w.claims },
+                    lastDate := max s1.lastDate d }, "ok")
        | _, _ => (s, "bad-op")
      | _, _, _, _ => (s, "bad-op"))
   | ["del", ref, size, pn, date] =>
-    (match s.fresh ref size, refWord pn, s.dateOK date none with
+    (match s.fresh ref size, refWord pn, (refWord pn).bind (fun p => s.dateOK date p false) with
      | some (r, n), some p, some d =>
        if s.kind p != "pn" || s.w.isDeleted p then (s, "bad-op") else
        let s1 := s.addBlob r "claim" n "claim"
-       ({ s1 with w := { s1.w with deleted := p :: s1.w.deleted, claims := s1.w.claims ++ [⟨p, .delete, [], [], d⟩] },
+       ({ s1 with w := { s1.w with deleted := p :: s1.w.deleted, claims := s1.w.claims ++ [⟨p, .delete, [], [], d, false⟩] },
                   lastDate := d }, "ok")
      | _, _, _ => (s, "bad-op"))
   | ["bytes", ref, size, content] =>
@@ -355,8 +362,8 @@ def step (s : S) (ws : List String) : S × String :=
     (match refWord pn, hexArg attr with
      | some p, some a =>
        if s.kind p != "pn" || a.isEmpty then (s, "bad-op") else
-       let vs := s.w.attrVals p a
-       (s, if vs.isEmpty then "none" else ",".intercalate (vs.map toHexString))
+       let sh := fun (vs : List Str) => if vs.isEmpty then "none" else ",".intercalate (vs.map toHexString)
+       (s, sh (s.w.attrVals p a 0) ++ " / " ++ sh (s.w.attrValsAll p a 0))
      | _, _ => (s, "bad-op"))
   | "q" :: srt :: lim :: c1 :: cw => (s, doQuery s srt lim (c1 :: cw))
   | _ => (s, "bad-op")
